@@ -18,6 +18,7 @@ import itertools
 import os
 import re
 import shutil
+import struct
 import tempfile
 import warnings
 
@@ -39,7 +40,9 @@ COLS = [("i-id", ":integer"), ("i-input", ":string"), ("i-wf", ":integer"), ("i-
         ("parse-id", ":integer"), ("polarity", ":integer"), ("i-comment", ":string"), ("x", ":string"),
         ("y", ":integer"), ("z", ":date"), ("i-difficulty", ":integer"), ("c0", ":string"), ("c1", ":string"),
         ("n0", ":integer")]
-RELNAMES = ["item", "parse", "result", "run", "item-set", "fold", "a", "b2", "r_1", "output", "q"]
+RELNAMES = ["item", "parse", "result", "run", "item-set", "fold", "a", "b2", "r_1", "output", "q", "item-phenomenon"]
+FCOLS = [("score", ":float"), ("t-real", ":float")]       # float columns: oracle only (no float crosses the model boundary)
+FLOAT_TEXTS = ["0.0", "-0.0", "1.0", "-1.0", "2.5", "1e-07", "1e+22", "0.1", "123456.789"]
 FLAGS = [":key", ":partial", ":foreign", ":unique"]
 
 
@@ -77,6 +80,8 @@ def n_cast(dt, text, denotes=None):
         return {"int": str(int(text))}
     if dt == ":date":
         return {"date": list(denotes)}
+    if dt == ":float":
+        return {"float": struct.unpack("<Q", struct.pack("<d", float(text)))[0]}
     return {"str": cps(text)}
 
 
@@ -269,9 +274,17 @@ def gen_raw_cell(rng, dt):
     if r < 0.2:
         return None
     if dt == ":integer":
+        if r < 0.45:
+            return rng.choice(["0", "0", "-1", "1", "-2"])        # falsy value, the text of the default, neighbours
         return str(v.gen_int(rng))
+    if dt == ":float":
+        return rng.choice(FLOAT_TEXTS)
     if dt == ":date":
+        if r < 0.35:
+            return rng.choice(["1-jan-1970", "1-jan-1000", "31-dec-9999 23:59:59", "29-feb-2000", "1-jan-1970 00:00:01"])
         return n_format("", ":date", datetime.datetime(*v.gen_dt(rng)))
+    if r < 0.35:
+        return rng.choice(["0", "0.0", "-1", "False", "None", " "])
     s = v.gen_string(rng, 5)
     return s or None
 
@@ -395,10 +408,68 @@ def gen_files(rng, schema_like, p_absent=0.15, arbitrary_width=False):
     return out
 
 
+
+def db_fixed():
+    """deterministic write_database block: relation names that are prefixes of one another, falsy and default-like
+    values (0, 0.0, -0.0, -1, '0' in a string column, empty cells, epoch / midnight dates), raw and autocast
+    sources, every destination kind (stale files with skewed and tied mtimes), schema None / same / derived, names
+    subsets, gzip on and off"""
+    def F(n, dt, fl=None):
+        f = {"name": cps(n), "dt": dt}
+        if fl:
+            f["flags"] = fl
+        return f
+
+    def R(*cells):
+        return [None if c is None else cps(c) for c in cells]
+    for with_float in (False, True):
+        item = [F("i-id", ":integer", [":key"]), F("i-input", ":string"), F("i-wf", ":integer"), F("i-date", ":date")]
+        rows = [R("0", "0", "0", "1-jan-1970"), R("-1", None, None, None), R("1", "zero", "1", "31-dec-1999 23:59:59"),
+                R(None, "0.0", "-1", "1-jan-1970 00:00:01")]
+        if with_float:
+            item.append(F("score", ":float"))
+            rows = [r + [cps(x)] if x is not None else r + [None] for r, x in zip(rows, ["0.0", "-0.0", None, "2.5"])]
+        iset = [F("i-id", ":integer", [":key"]), F("polarity", ":integer"), F("n0", ":integer")]
+        iphen = [F("i-id", ":integer"), F("x", ":string")]
+        S = [{"name": cps("item"), "fields": item}, {"name": cps("item-set"), "fields": iset},
+             {"name": cps("item-phenomenon"), "fields": iphen}]
+        files = [{"name": cps("item"), "tx": {"recs": rows, "mtime": 5}, "gz": None},
+                 {"name": cps("item-set"), "tx": None,
+                  "gz": {"recs": [R("0", "0", "0"), R("1", "-1", "-1"), R(None, None, None)], "mtime": 5}},
+                 {"name": cps("item-phenomenon"), "tx": {"recs": [R("9", "stale")], "mtime": 4},
+                  "gz": {"recs": [R("0", "0"), R("2", None)], "mtime": 9}}]
+        derived = [{"name": cps("item-set"), "fields": [iset[2], iset[1], iset[0]]},
+                   {"name": cps("item"), "fields": [item[2], F("y", ":integer"), item[0]] + item[3:]},
+                   {"name": cps("item-phenomenon"), "fields": [iphen[1], iphen[0], F("c0", ":string")]}]
+        stale = [{"name": cps("item"), "tx": {"recs": [R("7")], "mtime": 9}, "gz": {"recs": [R("8", "g")], "mtime": 4}},
+                 {"name": cps("item-set"), "tx": {"recs": [R("7", "7", "7")], "mtime": 7},
+                  "gz": {"recs": [R("8", "8", "8")], "mtime": 7}},
+                 {"name": cps("item-phenomenon"), "tx": None, "gz": {"recs": [R("5", "five")], "mtime": 3}}]
+        for autocast in ((True,) if with_float else (False, True)):
+            for schema in (None, S, derived):
+                T = schema if schema is not None else S
+                for names in (None, ["item"], ["item-set"], ["item-phenomenon", "item"]):
+                    for dst in ("inplace", "new", "existing"):
+                        for gz in (False, True):
+                            yield {"kind": "db", "op": "db", "src_schema": S, "src_files": files,
+                                   "src_autocast": autocast, "dst": dst,
+                                   "dst_files": None if dst == "inplace" else [] if dst == "new" else stale,
+                                   "names": None if names is None else [cps(n) for n in names],
+                                   "names_as": "list" if gz else "iter", "schema": schema, "gzip": gz,
+                                   "watch": [cps("item"), cps("item-phenomenon"), cps("item-set")],
+                                   "sel": {uncps(t["name"]): [t["fields"][-1]["name"], t["fields"][0]["name"]] for t in T},
+                                   "stream": "fixed"}
+
+
 def gen_db(rng):
     nrel = rng.choice([1, 2, 2, 3, 4])
     relnames = rng.sample(RELNAMES, nrel)
     S = [{"name": cps(n), "fields": gen_fields(rng)} for n in relnames]
+    src_autocast = rng.random() < 0.4
+    if rng.random() < (0.4 if src_autocast else 0.1):
+        t = rng.choice(S)                    # a float column (such cases are decided by the oracle only)
+        name, dt = rng.choice(FCOLS)
+        t["fields"].insert(rng.randrange(len(t["fields"]) + 1), {"name": cps(name), "dt": dt})
     if rng.random() < 0.1:
         # a source relation with a repeated column name (dict(zip()) keeps the last one)
         t = rng.choice(S)
@@ -439,7 +510,7 @@ def gen_db(rng):
     for t in T:
         fn = [f["name"] for f in t["fields"]]
         sel[uncps(t["name"])] = [rng.choice(fn) for _ in range(rng.randrange(1, 4))]
-    return {"kind": "db", "op": "db", "src_schema": S, "src_files": src_files, "dst": dst,
+    return {"kind": "db", "op": "db", "src_schema": S, "src_files": src_files, "src_autocast": src_autocast, "dst": dst,
             "dst_files": dst_files, "names": names, "names_as": rng.choice(["list", "list", "iter", "gen", "tuple"]),
             "schema": schema, "gzip": rng.random() < 0.4,
             "watch": [cps(n) for n in watch], "sel": sel}
@@ -631,8 +702,11 @@ class C09(Check):
         "the relations file is modelled at line level (list of lines of the text); names, flags and comments in "
         "generated schemas are printable ASCII (+TAB in comments), so str.splitlines, \\w, \\s and str.strip agree "
         "with the ASCII definitions of the model; relation names in db/hist cases start with a letter or digit",
-        "source databases are opened with autocast=False (raw cells are copied verbatim); cells of planted "
-        "files are castable in their column",
+        "write_database sources are opened with autocast=False (raw cells copied verbatim) or autocast=True "
+        "(typed values: the model casts every source cell with the C08 cast and prints it with the C08 format; "
+        "remake by name on typed values is `remakeV`); cells of planted files are castable in their column and "
+        "spelled canonically (str(int), repr(float), D-mon-YYYY[ HH:MM:SS]) so that 'preserved' means the same text "
+        "for both kinds of source; cases with a :float column are decided by the direct oracle only",
         "'preserves every record' is read modulo the documented replacement of an empty cell by Field.default "
         "(-1 for :integer, coded attributes) that tsdb.join applies on every write",
     ]
@@ -734,6 +808,7 @@ class C09(Check):
     def cases(self, rng, tier, n):
         yield from exhaustive_hists(3 if tier == "quick" else 4)
         yield from cr_hists()
+        yield from db_fixed()
         yield from schema_rt_fixed()
         yield from schema_parse_fixed()
         for i in range(n):
@@ -754,6 +829,8 @@ class C09(Check):
         if "hist" in kinds:
             yield from exhaustive_hists(3)
             yield from cr_hists()
+        if "db" in kinds:
+            yield from db_fixed()
         if kinds & {"schema_rt", "schema_parse", "db"}:
             yield from schema_rt_fixed()
             for _ in range(n // 4):
@@ -858,7 +935,7 @@ class C09(Check):
             if case["dst"] == "existing":
                 os.mkdir(dst)
                 self._plant_all(dst, case["dst_files"])
-        db = tsdb.Database(src)
+        db = tsdb.Database(src, autocast=bool(case.get("src_autocast", False)))
         schema = mk_schema(case["schema"]) if case["schema"] is not None else None
         names = [uncps(n) for n in case["names"]] if case["names"] is not None else None
         if names is not None:
@@ -901,7 +978,10 @@ class C09(Check):
         if case["kind"] == "schema_parse":
             return {"op": "schema_parse", "lines": case["lines"]}
         sj = model_schema
+        if any(f["dt"] == ":float" for sc in (case["src_schema"], case["schema"] or []) for t in sc for f in t["fields"]):
+            return None                       # float columns: direct oracle only
         return {"op": "db", "src_schema": sj(case["src_schema"]), "src_files": case["src_files"],
+                "src_autocast": bool(case.get("src_autocast", False)),
                 "dst_files": case["dst_files"] if case["dst"] != "inplace" else None,
                 "names": case["names"], "schema": sj(case["schema"]) if case["schema"] is not None else None,
                 "gzip": case["gzip"], "watch": case["watch"]}
@@ -989,6 +1069,15 @@ class C09(Check):
                                 else "derived"))
             inc("db.names:" + ("none" if case["names"] is None else "sublist:" + case.get("names_as", "list")))
             inc("db.gzip:%s" % case["gzip"])
+            inc("db.src_autocast:%s" % bool(case.get("src_autocast")))
+            if any(f["dt"] == ":float" for t in case["src_schema"] for f in t["fields"]):
+                inc("db.with_float_column")
+            if case.get("stream"):
+                inc("db.stream:" + case["stream"])
+            zeros = sum(1 for f in case["src_files"] for form in ("tx", "gz") if f[form] for r in f[form]["recs"]
+                        for c in r if c in ([48], [48, 46, 48], [45, 48, 46, 48]))
+            if zeros:
+                inc("db.src_cells_zero", zeros)
             inc("db.res:" + res["res"])
             inc("db.relations_src:%d" % len(case["src_schema"]))
             if any(len({tuple(f["name"]) for f in t["fields"]}) < len(t["fields"]) for t in case["src_schema"]):
